@@ -563,6 +563,26 @@ def c18_dyn_case(args):
                            env=env_e, make_replay=mk_enc, what=f"static vs reflection-loaded Can::Encode({sn!r}, v) on [{desc}]: {why}")
             except EngineLimit as e:
                 res["inconclusive"].append(f"{desc}|dynamic|{sn}|encode: engine limit: {e}")
+            # one witness per schema also runs natively at -O0 under AddressSanitizer/UBSan: undefined behaviour that the
+            # optimiser removes from the -O1 IR the interpreter sees (a dead out-of-bounds copy) still shows there
+            if sn == max((x[0] for x in binds if x[2] is not None and x[0] in structs), key=len):
+                ob = f"{desc}|dynamic|{sn}|encode|native-O0-sanitized"
+                res["obligations"].append(ob)
+                r_, mdl_ = eng.check(pc=list(assume))
+                if r_ != "sat":
+                    res["inconclusive"].append(f"{ob}: no witness value ({r_})")
+                else:
+                    payload = dict(mk_enc(mdl_), sanitize=True, obligation=ob,
+                                   what=f"Can::Encode({sn!r}, witness) natively at -O0 with sanitizers on [{desc}]")
+                    path = write_replay("C18", payload)
+                    okr, text = run_replay(path)
+                    if okr is True and not (known.matching(dict(feats, obligation="encode")) and "!= reflection-loaded" in text
+                                            and "Sanitizer" not in text and "crashed" not in text):
+                        res["violations"].append({"replay": path, "ob": ob, "what": f"{payload['what']} :: {text[-300:]}"})
+                    elif okr is None:
+                        res["inconclusive"].append(f"{ob}: replay harness failed: {text[-200:]}")
+                    else:
+                        res["discharged"] += 1
             finish_engine(res, eng)
 
             # ---------------- Decode of the canonical frame: same name and value from both wrappers
